@@ -204,6 +204,22 @@ def check_read_only(repo: Repo, rep: Report):
                         rep.bad("C13.read-only-queries", f.qualname, f"observer-writes-pickle:{chain}", f"{what} in {f.qualname}: a decompile/trace writes into the Pickled (or interpreter) it observes, so a later query answers from that residue instead of from the bytes", f.file, n.lineno)
         if ok:
             rep.ok("C13.read-only-queries", cq, "never writes the Pickled object it reads", f"{c.module.relpath}:{c.node.lineno}")
+    # (3b) the summariser visits the CACHED decompiled program (Pickled.ast): writing into a visited node changes what
+    # every later decompile / analysis of the same object sees
+    ap = repo.cls("fickling.fickle.ASTProperties")
+    ap_clean = True
+    for name, fs in ap.methods.items():
+        for f in fs:
+            if name == "__init__":
+                continue
+            ps = [p for p in f.params() if p != "self"]
+            for n, what, chain in _writes(f):
+                root = chain.split(".")[0]
+                if root in ps:
+                    ap_clean = False
+                    rep.bad("C13.read-only-queries", f.qualname, f"summary-writes-ast:{chain}", f"{what} in {f.qualname}: computing the import/call summaries rewrites a node of the cached decompiled program, so a later decompile (or analysis) of the same object differs from the first and from a fresh parse", f.file, n.lineno)
+    if ap_clean:
+        rep.ok("C13.read-only-queries", ap.qualname, "the summariser never writes into the nodes it visits", f"{ap.module.relpath}:{ap.node.lineno}")
     # (4) Pickled's read-only queries
     pk = repo.cls(PICKLED)
     ro = ["properties", "ast", "has_import", "has_call", "has_non_setstate_call", "unsafe_imports", "non_standard_imports", "dumps", "dump", "dumps_partial", "opcodes", "nb_opcodes", "__iter__", "__len__", "__getitem__"]
@@ -380,6 +396,8 @@ def check_class_level_state(repo: Repo, rep: Report, rule: str = "C13.no-shared-
                                 for t in store_targets(n):
                                     if isinstance(t, ast.Subscript) and (dotted(base_of(t)) or "") in (f"self.{attr}", f"cls.{attr}", f"{c.name}.{attr}"):
                                         writers.append((f, n))
+                                    if isinstance(n, ast.AugAssign) and (dotted(t) or "") in (f"self.{attr}", f"cls.{attr}", f"{c.name}.{attr}"):
+                                        writers.append((f, n))  # in-place += on the shared object
             if writers and not shadowed:
                 f, n = writers[0]
                 rep.bad(rule, c.qualname, f"class-level-mutable:{attr}", f"`{attr} = {src(v)}` is bound at class level and mutated through the instance in {f.qualname} (`{src(n)[:60]}`): every {c.name} shares that one object, so two live instances (or one abandoned half-way) corrupt each other's state", c.module.relpath, v.lineno)
